@@ -158,6 +158,10 @@ pub open spec fn tv_absent<Q: ?Sized, K, V>(tv: TV<(K, V)>, q: &Q) -> bool {
 pub open spec fn raw_absent<Q: ?Sized, K, V>(t: RawTable<(K, V)>, q: &Q) -> bool {
     forall|x: (K, V)| #[trigger] t.content().count(x) > 0 ==> !key_eq::<Q, K>(q, &x.0)
 }
+/// `f` answered false on the key of every pair stored under `hash`
+pub open spec fn key_rejects_all<K, V, F: FnMut(&K) -> bool>(f: F, tv: TV<(K, V)>, hash: u64) -> bool {
+    forall|i: int| tv.items.contains_key(i) && tv.hashes[i] == hash ==> f.ensures((&(#[trigger] tv.items[i]).0,), false)
+}
 pub open spec fn kv_unique<K, V>(c: Multiset<(K, V)>) -> bool {
     &&& forall|x: (K, V)| #[trigger] c.count(x) <= 1
     &&& forall|x: (K, V), y: (K, V)| #[trigger] c.count(x) > 0 && #[trigger] c.count(y) > 0 && key_eq::<K, K>(&x.0, &y.0) ==> x == y
